@@ -659,15 +659,25 @@ pub fn run(ctx: &Ctx) -> i32 {
             let envir = environment(&mut rng);
             let (text, want) = texts[i as usize % texts.len()];
             let want = want(&envir.env);
+            // the expression is the first thing the build evaluates: only the .equ lines of the environment in front
+            let equs: String = envir.prelude.lines().chain(envir.epilogue.lines()).filter(|l| l.starts_with(".equ")).map(|l| format!("{}\n", l)).collect();
+            let src = format!("{}\t.dq {}\n", equs, text);
+            if text.contains("SetV") {
+                return;
+            }
             fw::run_history_program(fw::history_programs().len() - 1);
-            let (out, v) = observe(&envir, text);
+            let out = fw::build_str(&src);
+            let v = match &out {
+                Outcome::Ok(b) => b.code.get(0..8).map(|b| i64::from_le_bytes(b.try_into().unwrap())),
+                _ => None,
+            };
             ctx.eval(1);
             ctx.count("symbols_after_an_exhausted_build", 1);
             if v != Some(want) {
                 ctx.violation(
                     "expr/symbols/after-a-build-that-ran-out-of-evaluation-budget",
                     format!("`{}` should be {} here, observed {:?} ({})", text, want, v, fw::clip(&format!("{:?}", out.brief()), 100)),
-                    json!({"source": program(&envir, &[text]), "after_exhausted_build": true, "want": want, "pc_base": envir.pc_base}),
+                    json!({"source": src, "after_exhausted_build": true, "want": want, "pc_base": 0}),
                 );
             }
         });
